@@ -227,6 +227,15 @@ class GeminiClient:
                     elif message == "first_use":
                         # First time seeing this host - trust it
                         self.tofu_db.trust(parsed.hostname, parsed.port, cert)
+                else:
+                    # No certificate could be read from the connection: there
+                    # is nothing to check the pin against, so refuse rather
+                    # than treating the host as unpinned or trusted
+                    raise ConnectionError(
+                        f"Could not read the server certificate of "
+                        f"{parsed.hostname}:{parsed.port}; refusing connection "
+                        f"(TOFU verification impossible)"
+                    )
 
             # Wait for response with timeout
             response: GeminiResponse = await asyncio.wait_for(
@@ -423,6 +432,15 @@ class GeminiClient:
                     elif message == "first_use":
                         # First time seeing this host - trust it
                         self.tofu_db.trust(parsed.hostname, parsed.port, cert)
+                else:
+                    # No certificate could be read from the connection: there
+                    # is nothing to check the pin against, so refuse rather
+                    # than treating the host as unpinned or trusted
+                    raise ConnectionError(
+                        f"Could not read the server certificate of "
+                        f"{parsed.hostname}:{parsed.port}; refusing connection "
+                        f"(TOFU verification impossible)"
+                    )
 
             # Wait for response with timeout
             response: GeminiResponse = await asyncio.wait_for(
